@@ -244,4 +244,55 @@ def run (hs : HashScheme P S Pep H) (cfg : Config Pep) (db : Db U T H) :
     (rr.1, r.2 :: rr.2)
 
 end
+
+/-! ### `config.rs` (`AuthConfig::default`, the builder methods) and `AuthProvider::new` / `default` / `with_config`
+
+The set-up code of a provider is a list of calls on two values: the `AuthConfig` value in hand (`cfg`) and the
+`config` field of the provider (`prov`). `noPepper` is `None`; a pepper set by `with_pepper` is `Some(bytes)`. -/
+section
+variable {Pep : Type}
+
+/-- `impl Default for AuthConfig`. -/
+def Config.dflt (noPepper : Pep) : Config Pep :=
+  { defaultLifetime := 3600, defaultRefreshLifetime := 3600, pepper := noPepper }
+
+/-- `with_default_lifetime`: `self.default_lifetime = lifetime; self`. -/
+def Config.withDefaultLifetime (c : Config Pep) (l : Nat) : Config Pep := { c with defaultLifetime := l }
+
+/-- `with_default_refresh_lifetime`: `self.default_refresh_lifetime = lifetime; self`. -/
+def Config.withDefaultRefreshLifetime (c : Config Pep) (l : Nat) : Config Pep :=
+  { c with defaultRefreshLifetime := l }
+
+/-- `with_pepper`: `self.pepper = Some(pepper.as_ref().to_vec()); self`. -/
+def Config.withPepper (c : Config Pep) (p : Pep) : Config Pep := { c with pepper := p }
+
+/-- One line of set-up code. -/
+inductive BCall (Pep : Type)
+  | defaultLifetime (l : Nat)     -- `cfg = cfg.with_default_lifetime(l)`
+  | refreshLifetime (l : Nat)     -- `cfg = cfg.with_default_refresh_lifetime(l)`
+  | pepper (p : Pep)              -- `cfg = cfg.with_pepper(p)`
+  | newConfig                     -- `cfg = AuthConfig::default()`
+  | cloneConfig                   -- `cfg = cfg.clone()` (`#[derive(Clone)]`)
+  | withConfig                    -- `provider = provider.with_config(cfg.clone())`: `self.config = config`
+  | providerDefault               -- `provider = AuthProvider::default()` (`#[derive(Default)]`)
+
+structure BState (Pep : Type) where
+  cfg : Config Pep
+  prov : Config Pep
+
+def bstep (noPepper : Pep) (s : BState Pep) : BCall Pep → BState Pep
+  | .defaultLifetime l => { s with cfg := s.cfg.withDefaultLifetime l }
+  | .refreshLifetime l => { s with cfg := s.cfg.withDefaultRefreshLifetime l }
+  | .pepper p => { s with cfg := s.cfg.withPepper p }
+  | .newConfig => { s with cfg := Config.dflt noPepper }
+  | .cloneConfig => s
+  | .withConfig => { s with prov := s.cfg }
+  | .providerDefault => { s with prov := Config.dflt noPepper }
+
+/-- The configuration of the provider after the set-up code: `let mut cfg = AuthConfig::default(); let mut provider =
+AuthProvider::new(users);` (`config: AuthConfig::default()`), then the calls in order. -/
+def build (noPepper : Pep) (calls : List (BCall Pep)) : Config Pep :=
+  (calls.foldl (bstep noPepper) { cfg := Config.dflt noPepper, prov := Config.dflt noPepper }).prov
+
+end
 end Humphrey.Auth
